@@ -1,6 +1,7 @@
 //! rvmon: runtime monitors for resolvo (see /verif/DESIGN.md).
 #![allow(clippy::all)]
 pub mod campaign;
+pub mod corpus;
 pub mod gener;
 pub mod hooks;
 pub mod monitors;
